@@ -9,8 +9,9 @@
 //! * the MAP oracle never uses the harness's own statistics, only the reported ones; a class is accepted
 //!   when its score is within 1e-9·max(S_j, S_best) (S = Σ|terms| of a class) plus an explicit forward
 //!   rounding bound of the maximum;
-//! * Gaussian moments: mean within 1e-9·max|x| of the compensated mean, variance within 1e-9·variance of
-//!   the compensated two-pass population variance. The signature of a moment violation is the measured
+//! * Gaussian moments: mean within 1e-9·max|x| of the compensated mean, variance within
+//!   1e-9·variance + (n·eps·max|x|)² of the compensated two-pass population variance (the second term is
+//!   the unavoidable effect of the rounded mean and is negligible unless E[x²]/Var exceeds ~1e18). The signature of a moment violation is the measured
 //!   conditioning κ = E[x²]/Var[x] of the (class, feature) column (decade), nothing random.
 use scverif::refla::{csum, mean_v, var_pop};
 use scverif::*;
@@ -514,7 +515,10 @@ fn gaussian_gen(c: &mut Case, offset: bool) {
                 format!("class {} feature {}: reported mean {:e}, reference {:e} ({} rows)", lab.vals[cl], j, theta[rj][j], m_ref, col.len())
             });
             let dv = (var[rj][j] - v_ref).abs();
-            c.ratio("gaussian.var", if dv.is_nan() { f64::INFINITY } else { dv }, TOL_MOMENT * v_ref, &cc, || {
+            // the centre of the column is only known to n·eps·max|x| in working precision, and a centre off
+            // by δ inflates the centred second moment by exactly δ² (matters only for E[x²]/Var > ~1e18)
+            let dmean = col.len() as f64 * eps::<f64>() * maxabs;
+            c.ratio("gaussian.var", if dv.is_nan() { f64::INFINITY } else { dv }, TOL_MOMENT * v_ref + dmean * dmean, &cc, || {
                 format!(
                     "class {} feature {}: reported variance {:e}, two-pass population variance {:e} ({} rows, mean {:e}, E[x^2]/Var = {:e}), column {:?}",
                     lab.vals[cl],
@@ -1181,7 +1185,7 @@ fn main() {
         rule: "one training set per case from seeded generators: 2..120 rows in arbitrary order, 1..8 features, 2..5 classes with skewed frequencies and label values 0..k-1 / 1..k / small arbitrary / ±1000 / ±2e6 / negative (categorical: non-negative with gaps), alpha = 1 or log-uniform in [1e-2,5], user priors in 35 % of the Gaussian/multinomial/Bernoulli cases; Gaussian: real or small-integer features with per-feature location and scale, every class has >= 2 rows and >= 2 distinct values per feature (family gaussian_offset adds a common offset of 1e3..1e8 spreads); multinomial: counts 0..9; Bernoulli: 0/1 without binarisation, or counts / reals / integers with a threshold (values equal to the threshold included); categorical: 1..5 codes per feature, contiguous or with gaps; bernoulli_enum enumerates all 14 two-class labellings x all 256 binary 4x2 matrices; 13..19 query rows per case (training rows, rows mixing training values, fresh rows; categorical only codes seen in training). A case is non-trivial when the fit succeeded, the class structure was reported correctly and for at least one query row the MAP oracle rejected at least one class (the arg-max was discriminating). distinct = hash of (variant, width, X, y, alpha, binarize, priors)",
         assumptions: vec![
             "the order in which a model lists its classes is not checked; all per-class statistics are aligned by label value, user priors must be stored positionally as supplied",
-            "Gaussian moments (f64 only): |mean - ref| <= 1e-9·max|x|, |var - ref| <= 1e-9·var against compensated two-pass references; the signature of a moment violation is the decade of E[x^2]/Var of the column",
+            "Gaussian moments (f64 only): |mean - ref| <= 1e-9·max|x|, |var - ref| <= 1e-9·var + (n·eps·max|x|)^2 against compensated two-pass references (the second term only matters for E[x^2]/Var > 1e18, where the mean itself is not representable accurately enough); the signature of a moment violation is the decade of E[x^2]/Var of the column",
             "count-based log-probabilities: |obs - exp| <= 1e-12·max(1,|exp|) (f64) / 1e-5 (f32, alpha and priors rounded to f32 first); normalisation Σ exp = 1 ± 1e-10 / 1e-4; priors sum to 1 ± 1e-12 / 1e-5",
             "MAP: scores recomputed in f64 from the REPORTED statistics; a class j is accepted within 1e-9·max(Σ|terms_j|, Σ|terms_best|) plus a forward rounding bound 8(d+3)·eps_T·Σ|terms| (and the conditioning of ln(1-p) for Bernoulli) of the maximum",
             "Bernoulli binarisation maps x > threshold to 1 (documented by MatrixPreprocessing::binarize); cases with values equal to the threshold carry their own signature",
